@@ -426,7 +426,9 @@ def gen_op(rng, S, step, stream):
     r = rng.random()
     if r < 0.27:
         return {"op": "create", "f": rng.choice(G.FILES), "p": rng.choice(PATHS), "mode": "w" if rng.random() < 0.15 else "a",
-                "k": rng.randrange(20), "s1": rng.random() < 0.5}
+                "k": rng.randrange(20), "s1": rng.random() < 0.5,
+                "via": rng.choice(["create_cooler"] * 11 + ["create"] * 7 + ["unordered", "cc_unordered"]),
+                "how": rng.choice(["mode", "append", "append", "default"])}
     if r < 0.32:
         f, q = rng.choice(colls)
         tgt = rng.choice(["/", q])
@@ -710,6 +712,16 @@ def corpus():
         ("re-create replaces nested, w truncates", [c(A, "/c2", 1), c(A, "/c2/y", 2), c(A, "/", 3), c(A, "/c2", 4), c(A, "/c10", 5, "w")]),
         ("a group tagged with another format is not a collection",
          [c(A, "/c2", 1), {"op": "setattr", "f": A, "p": "/", "key": "format", "val": "HDF5::MCOOL"}, o("cp", A, "/c2", A, "/c10")]),
+        ("append / write mode through every creator and through the deprecated alias append=",
+         [c(A, "/c2", 1), c(A, "/", 2), {"op": "setattr", "f": A, "p": "/", "key": "note", "val": "keep me"},
+          dict(c(A, "/c10", 3), via="create", how="append"), dict(c(A, "/c2/y", 4), via="unordered", how="append"),
+          dict(c(A, "/y", 5), via="cc_unordered", how="mode"), dict(c(A, "/c10", 6), via="create", how="mode"),
+          dict(c(A, "/e", 7), via="unordered", how="mode"), dict(c(A, "/a/b", 8), via="create_cooler", how="mode")]),
+        ("write mode: explicit, append=False and by default, through every creator",
+         [c(A, "/c2", 1), dict(c(A, "/c10", 2, "w"), via="create", how="append"), c(A, "/c2", 3),
+          dict(c(A, "/y", 4, "w"), via="unordered", how="default"), c(A, "/c2", 5), dict(c(A, "/c10", 6, "w"), via="create", how="default"),
+          c(A, "/c2", 7), dict(c(A, "/", 8, "w"), via="cc_unordered", how="default"), c(A, "/c2", 9),
+          dict(c(A, "/c10", 10, "w"), via="unordered", how="append"), c(A, "/y", 11), dict(c(A, "/c10", 12, "w"), via="create_cooler", how="default")]),
         ("unrelated attribute survives", [c(A, "/", 1), {"op": "setattr", "f": A, "p": "/", "key": "note", "val": "keep me"}, c(A, "/c2", 2), c(A, "/", 3), o("cp", A, "/c2", A, "/c10")]),
         ("missing sources", [c(A, "/c2", 1), o("cp", A, "/nope", A, "/c10"), o("mv", A, "/nope", A, "/c10"), o("ln", A, "/nope", A, "/c10"), o("cp", A, "/nope", B, "/c10"), o("cp", B, "/c2", A, "/c10")]),
         ("cli", [c(A, "/c2", 1), o("cp", A, "/c2", A, "/c10", via="cli"), o("mv", A, "/c10", A, "/c2/y", via="cli"), o("ln", A, "/c2", B, "/c2", via="cli"), o("lns", A, "/c2", B, "/c2", via="cli"), o("ln", A, "/c2", A, "/c10", via="cli", s1=False, s2=False)]),
